@@ -80,6 +80,17 @@ CHECKS = {
     technique="TLA+ spec SystemOps/System (property layer = function of the union of metadata; implementation layer = sequential first-come merge) checked by TLC over all distributions/orders/contradictions; exported cases materialised and run through ovniemu (verdict, signal, thread.row/cpu.row)",
     text="For every distribution of app_id/rank/loom_cpus over the threads, CPU list order, processing order and every single contradiction of the bounded family TLC checks that the merge agrees with the union semantics and that rows are distribution independent; a deterministic sample and all contradictions are run on the real emulator and rows/verdict/absence of signals compared.",
     note="2 looms, 3 processes, 5 threads; equal sort keys are Unspecified."),
+
+ "C18": dict(
+    level="model_checking", ref="DESIGN.md §4 C18",
+    technique="TLA+ spec Catalogue (over EmuFull + committed event tables): witness contexts by TLC reachability, verdict for every code of the 8 x 94 x 94 code space, Decode of description templates; probes and decodings replayed on ovnievents / ovniemu / ovnidump",
+    text="TLC finds for each of the 348 listed events the shortest history after which it is accepted, evaluates the reference semantics on all 70,688 three-character codes (invariant: rejected exactly when neither listed nor excepted) and computes the expected ovnidump text for argument vectors; ovnievents output is compared with the committed table in both directions, every listed event is replayed in its witness context, unlisted codes are probed (quick: neighbourhood + sample + payload-shaped probes; thorough: the whole space) and decodings compared.",
+    note="The table is committed data; printf formatting is reproduced for the conversions the catalogue uses."),
+ "C20": dict(
+    level="model_checking", ref="DESIGN.md §4 C20",
+    technique="TLA+ specs SortOps/SortMod (sort_replace as written vs sorted-multiset property, only-changed-rows written) and Breakdown/BreakdownMC (tri rule + mux selection memory) checked by TLC; exported sequences replayed in-process on sort.c (drivers/sortharness) and histories replayed with ovniemu -b, validated by BreakdownTrace.tla",
+    text="The full finite state space of the sort module for n<=4 inputs is explored with RowsSorted / OnlyChangedWritten / AllChangedWritten and four refuted wrong variants; all exported replacement cases and module histories are replayed on the real sort.c; nOS-V and Nanos6 bounded models (2-3 CPUs) are explored and thousands of histories are emulated with -b: after every event the breakdown rows must be the sorted multiset of the per-CPU values given by the tri rule applied to the same run's cpu.prv and predicted by the spec.",
+    note="One genuine finding is listed in known-findings.txt (stale tr-mux selection); the spec tolerates exactly that state and reports every other disagreement."),
 }
 
 NA_REASON = "check not built yet in this round (planned, see DESIGN.md §4/§8); not claimed until its machinery exists"
